@@ -58,6 +58,8 @@ def make(targets=None, timeout=2400):
     ok = {}
     for f in (targets or [x[:-2] + ".vo" for x in coq_files() if x not in SLOW_ONLY]):
         ok[f] = os.path.exists(os.path.join(COQ, f)) and os.path.getmtime(os.path.join(COQ, f)) >= os.path.getmtime(os.path.join(COQ, f[:-1]))
+    for m in re.finditer(r"\*\*\* \[[^\]]*?:\s*(\S+\.vo)\] Error", out):          # a file that no longer compiles against a regenerated dependency leaves its old .vo behind
+        ok[m.group(1)] = False
     return ok, out, time.time() - t
 
 GATE = re.compile(r"\b(Admitted|admit|Axiom|Axioms|Parameter|Parameters|Conjecture|Hypothesis|Variable|Unset Guard|bypass_check|Admit Obligations)\b|type-in-type|impredicative-set|Unset Universe|Unset Positivity")
